@@ -401,9 +401,9 @@ def h_watcher(ctx, kinds, subs, short_gap=0.05):
                 await vloop.settle(6)
                 out.setdefault("counts", []).append({k: len(v) for k, v in logs.items()})
             await asyncio.sleep(0.5)
-            t = d._bus_watch_task
-            out["alive"] = t is not None and not t.done()
-            out["exc"] = None if (t is None or not t.done() or t.cancelled()) else t.exception()
+            alive, excs = rigs.background_tasks_alive(d)
+            out["alive"] = alive
+            out["exc"] = excs[0] if excs else None
             d.disconnect()
             await vloop.settle(3)
         st, r = call(vloop.run, main)
